@@ -2,6 +2,7 @@
 
 in : [{"calls": [call], "histories": [[call index, ...], ...]}]   (one element per worker invocation)
      call = {"kind": "convert", "src": str, "opts": {...}} | {"kind": "decode", "tool": module, "args": [...], "file": path}
+          | {"kind": "convert_file", "src": str, "config": yaml text, "opts": {...}}
 out: [{"results": [[sha1 of each step], ...]}]
 The process hash seed comes from PYTHONHASHSEED (set by the harness); a forked child that has run nothing yet is an
 interpreter with an empty conversion history.
@@ -22,6 +23,22 @@ def run_call(c):
             return hashlib.sha1(compiler.convert(c["src"], **c["opts"]).encode("latin-1", "replace")).hexdigest()
         except BaseException as ex:  # noqa: BLE001
             return "exc:" + type(ex).__name__
+    if c["kind"] == "convert_file":
+        # the command-line path: the options file is (re)written at one fixed path before every call, as a user editing it between
+        # two runs would; the result may depend on its present content only
+        import io
+        cfgpath = os.path.join(tempfile.gettempdir(), "verifh_cfg_%d.yaml" % os.getpid())
+        try:
+            with open(cfgpath, "w") as f:
+                f.write(c["config"])
+            out = io.StringIO()
+            compiler.convert_file(io.StringIO(c["src"]), out, config_file=cfgpath, **c["opts"])
+            return hashlib.sha1(out.getvalue().encode("latin-1", "replace")).hexdigest()
+        except BaseException as ex:  # noqa: BLE001
+            return "exc:" + type(ex).__name__
+        finally:
+            if os.path.exists(cfgpath):
+                os.remove(cfgpath)
     mod = importlib.import_module("coco." + c["tool"])
     fd, out = tempfile.mkstemp(prefix="verifh")
     os.close(fd)
